@@ -6,19 +6,42 @@ ENTRY = dict(
         prop_file="Properties/C17.v",
         corr_files=["Corr/C17Corr.v"],
         theorems=["c17_restrict", "c17_decompose", "c17_members", "c17_recombine", "c17_expand",
-                  "c17_refuses_count", "c17_refuses_missing", "c17_facts"],
+                  "c17_refuses_count", "c17_refuses_missing",
+                  "c17_restrict_paths", "c17_restrict_out_of_range",
+                  "c17_decompose_call_total", "c17_decompose_call_crash",
+                  "c17_expand_outcome", "c17_refusal_reason",
+                  "c17_facts", "c17_source_facts"],
         allowed_axioms=[],
-        facts=["value_error_sites"],
+        facts=["value_error_sites", "c17_source_shape"],
         harness="c17",
-        level_text="Unbounded theorems (all list lengths, all label sequences, all qubit identity lists) about the executable model of "
-                   "restriction/decomposition/expansion of observables: letters kept in order, phase dropped/kept, partition recombines to the "
-                   "original string, refusals. Closed under the global context. The model is run against the implementation on >1000 generated "
-                   "cases per run.",
-        level_note=STD_NOTE + "No axioms.",
+        level_text="Unbounded theorems (all list lengths incl. 0 qubits and the empty list of observables, all label sequences, all qubit "
+                   "identity lists) about the executable model of restriction/decomposition/expansion of observables: letters kept in "
+                   "order, phase dropped/kept, partition recombines to the original string, refusals; plus outcome (totality) theorems: "
+                   "expansion is answered iff the counts agree and every original qubit is present, otherwise refused with the count "
+                   "message first and else the FIRST missing qubit named, and it never fails otherwise; decomposition as a public call "
+                   "answers iff there are at most num_qubits labels (more labels: IndexError, reachable). Closed under the global "
+                   "context. The model is run against the implementation on 1500 generated cases per quick run (about 21000 thorough).",
+        level_note=STD_NOTE + "No axioms. The source-shape fact (tools/facts_c17.py) pins, statement by statement, the lines the model "
+                   "mirrors (no phase argument in the restriction, `!=` count guard on num_qubits, CircuitError handler, result width "
+                   "final_circuit.num_qubits, copied phase vector); it is a syntactic tie, not a semantics of Python.",
         assumptions=[
             "Model/Observables.v is a hand-written model of observables_restricted_to_subsystem, decompose_observables, expand_observables; "
-            "tied to /repo by the C17 correspondence (vm_compute of the model on the inputs the implementation ran on)",
-            "Qubit objects are modelled as identity tags; PauliList symplectic arrays as one letter per qubit index",
-            "labels are interned by Python ==/hash classes (dict-key semantics)",
+            "tied to /repo by the C17 correspondence (vm_compute of the model on the inputs the implementation ran on) and by the "
+            "statement-level source fact c17_source_shape",
+            "Qubit objects are modelled as identity tags assigned by Python ==/hash (what QuantumCircuit.find_bit uses); PauliList "
+            "symplectic arrays as one letter per qubit index; classical bits, ancilla flags and register structure are NOT in the model - "
+            "the harness varies them (registers owning bits, registers over loose bits, overlapping registers, ancilla registers, clbits, "
+            "outputs of cut_wires/_transform_cuts_to_moves) and checks that the answer depends on the two .qubits lists only",
+            "labels are interned by Python ==/hash classes (dict-key semantics; False/0/0.0 and True/1/1.0 coincide)",
+            "a refusal counts only if the ValueError is raised by a frame of the package with one of the two documented messages "
+            "('must have the same number of qubits' / 'cannot be found in the `final_circuit`'); a ValueError from numpy broadcasting is "
+            "recorded as an undocumented refusal and never accepted (neither by the model comparison nor by judge)",
+            "observations outside the property's quantifier (recorded, compared with the model where it has an opinion, never judged): "
+            "an index >= num_qubits in a restriction is an IndexError (model: Crashed) except on the list[Pauli] path with an empty list "
+            "(returns []); more partition labels than qubits -> IndexError inside decompose_observables (model: Crashed), fewer labels "
+            "-> the trailing qubits are silently dropped (no validation in the source); repeated indices in a restriction repeat the "
+            "letter (not a subset: judge silent); negative indices wrap around in numpy (the model has naturals only; never generated); "
+            "the container type of the result (PauliList vs list) is not modelled; a single Pauli passed to expand_observables is "
+            "treated as a list of num_qubits rows by len() (docstring says observable(s))",
         ],
     )
